@@ -114,6 +114,7 @@ class ChangeField(BaseModelFieldMutation):
         # The target of a relation is tracked on the field signature itself,
         # not as one of its attributes.
         new_field_attrs = self.field_attrs.copy()
+        has_related_model = 'related_model' in new_field_attrs
         related_model = new_field_attrs.pop('related_model', None)
 
         if field_type_changed:
@@ -121,7 +122,8 @@ class ChangeField(BaseModelFieldMutation):
         else:
             field_sig.field_attrs.update(new_field_attrs)
 
-        if related_model is not None:
+        if has_related_model:
+            # This may be None, if the field is no longer a relation.
             field_sig.related_model = related_model
 
         if ('null' in self.field_attrs and not self.field_attrs['null'] and
